@@ -31,7 +31,7 @@ def plan(tier):
 
 
 def floors(tier):
-    c = {"calls": 5000}
+    c = {"calls": 5000, "limitd_on_stale_tree": 80}
     for k in KINDS:
         c["calls_" + k] = 250 if k not in ("erc", "meanvar") else 120
     return {"min_decided": 5000, "counters": c, "max_undecided_frac": 0.2}
@@ -220,10 +220,26 @@ def one(cs, j, which):
         lim = rng.choice([0.05, 0.2]) if rng.random() < 0.6 else {c: rng.choice([0.05, 0.3]) for c in rng.sample(cols, rng.randint(1, n))}
         orig = dict(tw)
         s.temp = {"weights": tw}
-        cur = {c: (s.children[c].weight if c in s.children else 0.0) for c in cols}
+        pend = rng.choice(["none", "none", "flow", "close", "trade"])
+        held = [c for c in cols if c in s.children and s.children[c].position != 0]
+        if pend == "flow":
+            s.adjust(rng.choice([-1, 1]) * rng.uniform(0.1, 0.5) * 1e6)          # an algo earlier in the stack moved capital: the tree is stale
+        elif pend == "close" and held:
+            s.close(rng.choice(held), update=False)
+            s.root.stale = True
+        elif pend == "trade" and held:
+            s.children[rng.choice(held)].transact(rng.uniform(-200, 200), update=False)
+            s.root.stale = True
+        else:
+            pend = "none"
+        if pend == "none":
+            cur = {c: (s.children[c].weight if c in s.children else 0.0) for c in cols}
         algos.LimitDeltas(lim)(s)
+        if pend != "none":
+            # 'current weight' is what the tree shows once the pending change is flushed (which the first read does)
+            cur = {c: (s.children[c].weight if c in s.children else 0.0) for c in cols}
         out = s.temp["weights"]
-        w.update(limit=lim, before=orig, live=cur)
+        w.update(limit=lim, before=orig, live=cur, pending=pend)
         for c in cols:
             tgt0 = orig.get(c, 0.0)
             lmt = lim if not isinstance(lim, dict) else lim.get(c)
@@ -242,7 +258,7 @@ def one(cs, j, which):
                     return fail("no limited target written", key=c)
                 if abs(abs(out[c] - cur[c]) - lmt) > 1e-12:
                     return fail("|new target - live weight| must equal the limit", key=c, got=out[c])
-        return (sig + [isinstance(lim, dict)], None, w, True)
+        return (sig + [isinstance(lim, dict), pend], None, w, True)
     if which == "targetvol":
         if not sel:
             s.temp = {"weights": {}}
@@ -304,6 +320,8 @@ def run_case(unit, cs, idx, build, params):
         sig, mech, w, nt = r
         common.bump(cnt, "calls")
         common.bump(cnt, "calls_" + sig[0])
+        if sig[0] == "limitd" and w.get("pending", "none") != "none":
+            common.bump(cnt, "limitd_on_stale_tree")
         if mech:
             out.append(common.result(common.VIOL, sig=sig, nt=True, mech=mech, witness=dict(w, case_seed=cs, sub_index=j)))
         else:
